@@ -10,6 +10,7 @@ import (
 	"net/http"
 	"net/http/httptest"
 	"os"
+	"regexp"
 	"sort"
 	"strings"
 	"sync"
@@ -79,7 +80,7 @@ scrape_configs:
     regex: drop_.*
     action: drop
   - source_labels: [__name__, verdict]
-    regex: keep_a;drop
+    regex: keep_a.*;drop
     action: drop
 `
 
@@ -102,6 +103,7 @@ type sidecarRig struct {
 	proxy   *sidecar.Proxy
 	head    int64
 	payload func(r *http.Request) (*http.Response, error)
+	nScrape int
 }
 
 func newSidecarRig(dir string, head int64, clock *int64, base time.Time) (*sidecarRig, error) {
@@ -207,9 +209,9 @@ func (r *sidecarRig) update(req []STgt, emptyJobs ...int) error {
 	return nil
 }
 
-func expoPayload(scraped, total int64, job int) string {
+func expoPayload(scraped, total int64, job int, tag string) string {
 	var b strings.Builder
-	b.WriteString("# HELP keep_a something\n# TYPE keep_a gauge\n")
+	fmt.Fprintf(&b, "# HELP keep_a%s something\n# TYPE keep_a%s gauge\n", tag, tag)
 	dropped := total - scraped
 	// job1 also drops by (name, label): samples of one metric name are judged differently, and for
 	// odd totals the first sample of that name is a dropped one
@@ -219,7 +221,7 @@ func expoPayload(scraped, total int64, job int) string {
 	}
 	emitByName := func() {
 		for i := int64(0); i < byName; i++ {
-			fmt.Fprintf(&b, "keep_a{i=\"d%d\",verdict=\"drop\"} 3\n", i)
+			fmt.Fprintf(&b, "keep_a%s{i=\"d%d\",verdict=\"drop\"} 3\n", tag, i)
 		}
 	}
 	if total%2 == 1 {
@@ -227,14 +229,14 @@ func expoPayload(scraped, total int64, job int) string {
 	}
 	for i := int64(0); i < scraped; i++ {
 		if i%2 == 0 {
-			fmt.Fprintf(&b, "keep_a{i=\"%d\"} %d\n", i, i)
+			fmt.Fprintf(&b, "keep_a%s{i=\"%d\"} %d\n", tag, i, i)
 		} else {
-			fmt.Fprintf(&b, "keep_b{i=\"%d\",z=\"y\"} 1\n", i)
+			fmt.Fprintf(&b, "keep_b%s{i=\"%d\",z=\"y\"} 1\n", tag, i)
 		}
 	}
 	b.WriteString("\n")
 	for i := int64(0); i < dropped-byName; i++ {
-		fmt.Fprintf(&b, "drop_c{i=\"%d\"} 2\n", i)
+		fmt.Fprintf(&b, "drop_c%s{i=\"%d\"} 2\n", tag, i)
 	}
 	if total%2 == 0 {
 		emitByName()
@@ -243,12 +245,15 @@ func expoPayload(scraped, total int64, job int) string {
 }
 
 func (r *sidecarRig) scrape(h uint64, job int, ok bool, scraped, total int64) int {
+	// every target exposes its own metric names, of a length that changes from scrape to scrape
+	r.nScrape++
+	tag := fmt.Sprintf("_h%d_%s", h, strings.Repeat("x", r.nScrape%5))
 	r.payload = func(req *http.Request) (*http.Response, error) {
 		if !ok {
 			return nil, fmt.Errorf("scripted connection error")
 		}
 		return &http.Response{StatusCode: 200, Status: "200 OK", Header: http.Header{"Content-Type": []string{"text/plain"}},
-			Body: io.NopCloser(strings.NewReader(expoPayload(scraped, total, job))), Request: req}, nil
+			Body: io.NopCloser(strings.NewReader(expoPayload(scraped, total, job, tag))), Request: req}, nil
 	}
 	rec := httptest.NewRecorder()
 	url := fmt.Sprintf("http://10.1.0.%d:80/metrics?_jobName=job%d&_hash=%d&_scheme=http", h, job, h)
@@ -347,7 +352,13 @@ func genSidecarCase(r *Rng, long bool) *SCase {
 	return c
 }
 
+var metricNameRe = regexp.MustCompile(`^(keep_a|keep_b|drop_c)_h[0-9]+_x*$`)
+
+// set by runSidecarCase when the per-metric detail names something no target exposed
+var badMetricName string
+
 func runSidecarCase(c *SCase, work string) (string, []SObs, error) {
+	badMetricName = ""
 	dir, err := os.MkdirTemp(work, "sc")
 	if err != nil {
 		return "", nil, err
@@ -410,9 +421,12 @@ func runSidecarCase(c *SCase, work string) (string, []SObs, error) {
 						continue
 					}
 					var ps, pt float64
-					for _, m := range rr.MetricsTotal {
+					for name, m := range rr.MetricsTotal {
 						ps += m.Scraped
 						pt += m.Total
+						if !metricNameRe.MatchString(name) && badMetricName == "" {
+							badMetricName = fmt.Sprintf("GET /samples lists a metric named %q for %s, no target ever exposed such a metric", name, j)
+						}
 					}
 					w.add(int64(rr.ScrapedTotal), int64(ps), int64(pt))
 				}
@@ -483,6 +497,10 @@ func runSidecar(a Args) *Result {
 			res.ImplViol = capViol(res.ImplViol, Violation{Property: "*", Clause: "error", Signature: "sidecar/error",
 				What: "the sidecar returned an error on a well-formed history: " + err.Error(), Case: map[string]interface{}{"case": c}}, 3)
 			continue
+		}
+		if badMetricName != "" {
+			res.ImplViol = capViol(res.ImplViol, Violation{Property: "C14", Clause: "metricNames", Signature: "C14/metricNames",
+				What: badMetricName, Case: map[string]interface{}{"case": c}}, 2)
 		}
 		kept = append(kept, c)
 		keptObs = append(keptObs, obs)
